@@ -22,7 +22,10 @@ RULE = ("(a) Hypothesis histories (preloads, counted/uncounted reads, writes; by
         "vs off in both modes. Oracle: every read equals the flat reference store; crossing/out-of-range accesses raise and "
         "leave all pool words unchanged (checked on a deep copy); final read-back of the pool. non-trivial = (history) a "
         "written block was replaced and one of its addresses was read later, or (WT) a write hit followed by a read of that "
-        "word; (program) >=1 data-cache eviction; distinct = hash(case)")
+        "word; (program) >=1 data-cache eviction; distinct = hash(case)"
+        ' Histories contain reset() of the memory system in mid-history (store, tag models and bookkeeping restart; the'
+        ' same addresses are revisited), sub-word preloads, zeroing writes, aliased (+-k*2^32) addresses, caches direct'
+        'ly over a full-range memory.')
 ASSUMPTIONS = [
     "preloads (direct writes below the cache) only before the first cached access, as the assembler does",
     "which error type rejects a crossing access is not prescribed; any ValueError/MemoryAddressError counts as rejection",
